@@ -438,6 +438,7 @@ type ttUnit struct {
 type ttPES struct {
 	pts   int64
 	units []ttUnit
+	tail  []byte // bytes after the last complete data unit: too short to be one (stuffing, a cut unit); ignored
 }
 
 func (p ttPES) payload(ident byte) []byte {
@@ -446,7 +447,7 @@ func (p ttPES) payload(ident byte) []byte {
 		o = append(o, u.id, byte(len(u.data)))
 		o = append(o, u.data...)
 	}
-	return o
+	return append(o, p.tail...)
 }
 
 type ttMux struct {
@@ -472,6 +473,25 @@ func (m *ttMux) add(pts int64, u ttUnit) {
 		m.cur = &ttPES{pts: pts}
 	}
 	m.cur.units = append(m.cur.units, u)
+}
+
+// addTails leaves bytes after the last complete data unit of some PES payloads: too short to be a data unit
+// (a stray byte, an id and a length that runs beyond the payload, a unit cut short). Such a payload is not
+// well-formed EN 300 472 framing, so the cases carry no ground truth; the reader ignores the tail.
+func addTails(r *rng, c *ttCase) {
+	for i := range c.pes {
+		if !r.chance(1, 3) {
+			continue
+		}
+		switch r.intn(3) {
+		case 0:
+			c.pes[i].tail = []byte{[]byte{0xff, 0x03, 0x02, 0x00}[r.intn(4)]}
+		case 1:
+			c.pes[i].tail = []byte{0x03, 0x2c}
+		default:
+			c.pes[i].tail = append([]byte{0x03, 0x2c, 0xe7, 0xe4}, make([]byte, r.intn(20))...)
+		}
+	}
 }
 
 func subUnit(pkt []byte) ttUnit { return ttUnit{id: 0x03, data: pkt} }
@@ -991,6 +1011,11 @@ func init() {
 			if i%4 == 0 {
 				c.do(fmt.Sprintf("teletext.read %d %d %s", tc.pageOpt(), pid, encBytes(mutateTS(r, ts))))
 				c.count("mutated")
+			}
+			if i%8 == 1 { // payloads with bytes left over after the last data unit
+				addTails(r, &tc)
+				c.do(fmt.Sprintf("teletext.read %d %d %s", tc.pageOpt(), pid, encBytes(buildTS(r, tc, o))))
+				c.count("tails")
 			}
 			if i%25 == 0 { // wrong options: a PID that carries no teletext, a page that is not on air
 				c.do(fmt.Sprintf("teletext.read %d %d %s", tc.pageOpt(), 0x31, encBytes(ts)))
